@@ -149,6 +149,13 @@ var $callDeferred = (deferred, jsErr, fromPanic) => {
             // of the function.
             throw e;
         }
+        if (e === null && movedToCallerFrame && !$curGoroutine.asleep && !$curGoroutine.exit) {
+            /* A panic raised by a deferred call of one of the callers (reached after this frame was resumed)
+               was recovered there or further out: this frame and the ones up to the recovering frame are
+               abandoned; the recovering function runs its remaining deferred calls and returns. */
+            unwindToRecoveringFrame = true;
+            return;
+        }
         // We are at the end of the function, handle the error or re-throw to
         // continue unwinding if necessary, or simply stop unwinding if we got far
         // enough.
